@@ -8,7 +8,7 @@
     holds for binary64 (NaN included) and for the reals. *)
 From Coq Require Import List Arith Bool ZArith Sorted Permutation.
 From ET Require Import Model.Scalar Model.Sparse Model.Basic Model.Csv Model.Playground
-  Proofs.SparseBase Proofs.PlaygroundProofs.
+  Proofs.SparseBase Proofs.PlaygroundProofs Proofs.BoundedProofs.
 Import ListNotations.
 
 (** A result page is produced exactly through the three stages. *)
@@ -60,17 +60,23 @@ Theorem C20_unusable_is_400 :
 Proof. exact @calculate_refusals. Qed.
 Print Assumptions C20_unusable_is_400.
 
-(** No slice access of the handler is out of range: it can panic only if Compute does or if the
-    pipeline returned an entry beyond the dimension.  (PARTIAL: that the pipeline never does is not
-    proved here; it is checked on every run.) *)
-Theorem C20_no_index_panic_partial :
-  forall (S : ScalarOps) fuel eps (u : @upload S),
-    calculate fuel eps u = PCrash ->
-    exists names lt1 pt1 h, prepare u = inr (names, lt1, pt1, h) /\
-      (pipeline fuel eps lt1 pt1 h = PipeCrash \/
-       exists t', pipeline fuel eps lt1 pt1 h = PipeOk t' /\ ~ bounded (vdim pt1) (vents t')).
-Proof. exact @calculate_crash_only_from_pipeline. Qed.
-Print Assumptions C20_no_index_panic_partial.
+(** No upload makes the handler panic: every slice access of calculate ([preTrusted[e.Index]],
+    [entries[e.Index]], [peerNames[i]]) is in range because every entry index the readers, the
+    alignment, Compute and DiscountTrustVector produce stays below the dimension
+    (Proofs/BoundedProofs.v), and Compute's flat-tail slice is unreachable with the default options.
+    Every upload is answered by the result page, the 400 page, or the exhaustion of the fuel. *)
+Theorem C20_never_panics :
+  forall (S : ScalarOps) fuel eps (u : @upload S), calculate fuel eps u <> PCrash.
+Proof. exact @calculate_never_crashes. Qed.
+Print Assumptions C20_never_panics.
+
+Theorem C20_pipeline_in_range :
+  forall (S : ScalarOps) fuel eps (lt1 : csm S) (pt1 : vec S) h t',
+    pipeline fuel eps lt1 pt1 h = PipeOk t' ->
+    major lt1 = vdim pt1 -> rows_bounded (vdim pt1) lt1 -> bounded (vdim pt1) (vents pt1) ->
+    bounded (vdim pt1) (vents t').
+Proof. exact @pipeline_bounded. Qed.
+Print Assumptions C20_pipeline_in_range.
 
 Theorem C20_render_total :
   forall (S : ScalarOps) names (lt1 : csm S) (pt1 t' : vec S),
